@@ -593,9 +593,9 @@ func (c *Ctx) rulesR3subs() {
 			continue
 		}
 		for _, col := range []string{"ProcessWhen", "ProcessWhenTime", "ProcessWhenQueue", "ProcessWhenQuery", "ProcessStateCtx"} {
-			for i, s := range c.sitesIn(f, pm+":Subscriptions."+col) {
+			for i, s := range c.innerSites(f, pm+":Subscriptions."+col) {
 				n++
-				gs := guardsOf(s.Block())
+				gs := c.guardsHosted(s, f)
 				c.check(len(gs) == 0, "C06.uncond", fmt.Sprintf("%s calls %s%s unconditionally", k, col, nth(i)), s.Pos(), fmt.Sprintf("the collector only runs under %v", guardStrings(gs)))
 			}
 		}
@@ -1405,7 +1405,13 @@ func (c *Ctx) rulesR3misc(only string) {
 			if f == nil {
 				continue
 			}
-			for _, b := range f.Blocks {
+			root := f
+			var hblocks []*ssa.BasicBlock
+			for _, hf := range c.hostedFns(root) {
+				hblocks = append(hblocks, hf.Blocks...)
+			}
+			for _, b := range hblocks {
+				f := b.Parent()
 				for _, ins := range b.Instrs {
 					call, ok := ins.(*ssa.Call)
 					if !ok {
@@ -1420,7 +1426,7 @@ func (c *Ctx) rulesR3misc(only string) {
 					}
 					nc++
 					bad := ""
-					for _, g := range guardsOf(b) {
+					for _, g := range c.guardsHosted(ins, root) {
 						cond, _ := stripNot(g.Cond)
 						if bo, ok := cond.(*ssa.BinOp); ok && (bo.Op == token.LSS || bo.Op == token.GTR) {
 							continue // range bound
